@@ -216,7 +216,62 @@ def classes(case):
     return out
 
 
+def check_depth(case):
+    t = case['tree']
+    try:
+        want = gf.ref_eval(t, env_ref())
+    except (Unspecified, OverflowError):
+        raise Skip('reference-unspecified')
+    if isinstance(want, Err):
+        raise Skip('zero-divisor')
+    env = Env(vars=VARS, cells=CELLS, funcs={'ID': lambda x: x})
+    n = case['wrap']
+    inner = gf.render(t, 'min')
+    texts = [('%d redundant pairs around the whole formula' % n, '(' * n + inner + ')' * n)]
+    # a right-nested chain: a op (b op (c op (...))) of depth k
+    k = case['chain']
+    ops = case['ops']
+    chain = str(k + 1)
+    val = k + 1
+    for i in range(k, 0, -1):
+        op = ops[i % len(ops)]
+        chain = '%d%s(%s)' % (i, op, chain)
+        val = i + val if op == '+' else (i - val if op == '-' else i * val)
+    texts.append(('right-nested chain of depth %d' % k, chain))
+    wants = [want, val]
+    for (name, text), w in zip(texts, wants):
+        r = env.parse(text)
+        if r['error'] is not None or not same(r['result'], w):
+            raise Violation('%s: %s... -> %r, expected %r' % (name, text[:80], r['error'] or r['result'], w), r['error'] or enc(r['result']), enc(w))
+    # and afterwards ordinary parentheses still work on the same and on a fresh parser
+    for P in (env, Env(vars=VARS)):
+        r = P.parse('(1+2)*3')
+        if r['error'] is not None or r['result'] != 9:
+            raise Violation('(1+2)*3 -> %r after evaluating deeply nested formulas' % (r['error'] or r['result'],), r['error'] or enc(r['result']), 9)
+
+
+def check_after_failures(case):
+    # parentheses keep working whatever failed before: evaluations abandoned inside open parentheses, unknown names, stray characters
+    P = Env(vars=VARS, cells=CELLS, funcs={'ID': lambda x: x})
+    for f in case['fail']:
+        P.parse(f)
+    for text, w in (('(1+2)*3', 9), ('((2))*((3))', 6), ('-(v_a+v_b)*(2-(1-4))', -50), ('ID((1+(2*(3+(4)))))', 15)):
+        for X in (P, Env(vars=VARS, funcs={'ID': lambda x: x})):
+            r = X.parse(text)
+            if r['error'] is not None or r['result'] != w:
+                raise Violation('%s -> %r after the failed evaluations %r' % (text, r['error'] or r['result'], case['fail'][:6]), r['error'] or enc(r['result']), w)
+
+
+FAILING = ['((((nosuch', '((1+', '(((NOSUCH(1)))', '((((((~', '(1+(2*(3+', '((((1)))', '(((((((((("', 'SUM(((1,', '((1)+(2))+((', '(' * 30 + 'x_y']
+
 LAWS = [
+    Law('nesting_depth', check_depth, quick=400, thorough=20000, shards=(8, 16),
+        strategy=st.fixed_dictionaries({'tree': arith_tree, 'wrap': st.one_of(st.integers(1, 120), st.sampled_from([63, 64, 65, 100, 127, 128, 129, 200])), 'chain': st.integers(1, 150), 'ops': st.lists(st.sampled_from(['+', '-', '*', '-']), min_size=1, max_size=4)}),
+        nontrivial=lambda c: c['wrap'] >= 20 or c['chain'] >= 20, classes=lambda c: (('deep>=65' if c['wrap'] >= 65 or c['chain'] >= 65 else 'shallow'),), required=('deep>=65',),
+        rule='a generated tree wrapped in 1-200 redundant pairs of parentheses, and a right-nested chain a op (b op (c op ...)) of depth 1-150: value unchanged / equal to the native evaluation ("of any shape and depth"), and ordinary parenthesised formulas still evaluate afterwards'),
+    Law('after_failures', check_after_failures, quick=200, thorough=5000, shards=(4, 8),
+        strategy=st.fixed_dictionaries({'fail': st.lists(st.sampled_from(FAILING), min_size=1, max_size=60)}), nontrivial=lambda c: len(c['fail']) >= 10,
+        rule='1-60 evaluations that fail inside open parentheses (unknown names, truncated formulas, stray characters), then four parenthesised formulas on the same and on a fresh parser: values unchanged'),
     Law('tree_value', check, strategy=top_tree(), classes=classes, nontrivial=nontrivial, quick=12000, thorough=300000, shards=(16, 16),
         required=('mixed-levels', 'right-compound-same-level', 'neg-under-binary', 'comparison', 'amp', 'call', 'grouping-sensitive'),
         rule='tree rendered three ways (minimal parentheses per the stated precedence, every sub-expression parenthesised, minimal plus generated redundant pairs); each must evaluate to the native value of the tree '
